@@ -361,9 +361,18 @@ class PathEnum:
         for r in self.block(body, q, nfr):
             if r.exit is None or (isinstance(r.exit, tuple) and r.exit[0] == 'return'):
                 retnode = r.exit[1] if r.exit else None
+                # the returned expression may itself have come out of a deeper call (`return self._build(...)`): it is to be read in
+                # the frame it was written in, which the return event recorded
+                rframe = nfr
+                if r.exit:
+                    for e_ in reversed(r.ev):
+                        if e_.kind == 'return' and e_.frame is nfr:
+                            if e_.a is retnode and e_.b is not None and not isinstance(e_.b, (str, tuple)):
+                                rframe = e_.b
+                            break
                 r.exit = None
                 r.ev.append(Ev('leave', call, nfr))
-                res.append((r, retnode, nfr))
+                res.append((r, retnode, rframe))
             else:
                 r.ev.append(Ev('leave', call, nfr, 'exc'))
                 res.append((r, _UNKNOWN, nfr))      # exceptional: r.exit set
